@@ -579,6 +579,33 @@ def config_syntax(ctx):
             hs = [prog.dotted(h.type) for h in t.handlers if h.type is not None]
             falls_back = all(all(isinstance(s, ast.Pass) for s in h.body) for h in t.handlers)
             ok_open = bool(hs) and set(hs) <= {"IOError", "OSError", "FileNotFoundError"} and falls_back
+    if not ok_open:
+        # look-before-you-leap spellings.  os.path.isfile / os.path.exists answer False for every string (they swallow OSError and
+        # ValueError); pathlib's is_file / exists swallow only ENOENT-like errors (before Python 3.14) and re-raise the rest -
+        # ENAMETOOLONG for an inline configuration with more than 255 characters between slashes, which argparse does not catch.
+        def _recv(e_):
+            if isinstance(e_, ast.Name):
+                vals_ = [n_.value for n_ in ct.body_nodes() if isinstance(n_, ast.Assign) and any(astq.is_name(t_, e_.id) for t_ in n_.targets)]
+                return vals_[0] if len(vals_) == 1 else None
+            return e_
+        for n in ct.body_nodes():
+            if not isinstance(n, ast.If):
+                continue
+            for c_ in [x for x in ast.walk(n.test) if isinstance(x, ast.Call)]:
+                q_ = prog.qualify(cm, c_.func, ct) or ""
+                if q_ in ("os.path.isfile", "os.path.exists") and c_.args and astq.is_name(c_.args[0], p):
+                    ok_open = True
+                elif isinstance(c_.func, ast.Attribute) and c_.func.attr in ("is_file", "exists") and not c_.args:
+                    r_ = _recv(c_.func.value)
+                    if isinstance(r_, ast.Call) and (prog.qualify(cm, r_.func, ct) or "").startswith("pathlib.") and r_.args and astq.is_name(r_.args[0], p):
+                        ctx.bad(R, ct, n, "_config_type asks pathlib (`%s`) whether the argument is a file: for an inline configuration with more than "
+                                "255 characters between slashes the underlying stat fails with ENAMETOOLONG, which %s() re-raises (Python < 3.14) "
+                                "instead of answering False - the tool dies on an inline configuration that works from a file"
+                                % (astq.text(n.test)[:60], c_.func.attr),
+                                "the argument is tried as a file path and otherwise used as the inline string", robust=True)
+                        ok_open = None
+        if ok_open is None:
+            ok_open = True  # reported above
     ctx.check(ok_open, R, ct, tries[0] if tries else MISSING(ct.node),
               "the argument is tried as a file path and otherwise used as the inline string",
               "_config_type no longer falls back to the inline string when the argument is not a readable path", structural=True)
